@@ -215,15 +215,47 @@ Definition check_leaf (r : row) (lenient : bool) (prev v : val) : option val :=
 Definition dict_to_items (l : list (str * val)) : list (str * val) :=
   fold_left (fun acc fv => upsert (fst fv) (snd fv) acc) l [].
 
-(* _apply_actions below a group key g: every child with a leaf action is type-checked (lenient), unknown
-   children are kept for validation to complain about *)
+(* _apply_actions: an EMPTY mapping for a key that is neither an action nor a prefix of one is rejected
+   (_core.py:1386-1388; the escape "key in self.groups" is not modelled: see ASSUMPTIONS) *)
+Definition empty_ok (T : table) (key : str) (l : list (str * val)) : bool :=
+  negb (is_nil l) || is_some (find_action T key false) || is_branch_key T key.
+
+(* a child of a mapping: a leaf action type-checks it (lenient), anything else is kept for validation *)
+Definition apply_child (T : table) (key : str) (name : str) (v : val) : option (str * val) :=
+  match find_action T key false with
+  | Some r => if is_load r then Some (name, v)
+              else option_map (fun v' => (name, v')) (check_leaf r true VNone v)
+  | None => Some (name, v)
+  end.
+
+(* _apply_actions below a group key g.  A child that is no leaf action and holds a mapping (a nested sub-group,
+   given as a mapping) contributes ITS children, with their dotted paths (one more level is modelled). *)
+Definition apply_children (T : table) (key name : str) (l : list (str * val)) : option (list (str * val)) :=
+  map_opt (fun kw => apply_child T (key ++ [c_dot] ++ fst kw) (name ++ [c_dot] ++ fst kw) (snd kw)) (dict_to_items l).
+
+Definition apply_below (T : table) (key : str) (fv : str * val) : option (list (str * val)) :=
+  match snd fv with
+  | VDict l => if empty_ok T key l then apply_children T key (fst fv) l else None
+  | _ => Some [fv]
+  end.
+
+Definition apply_item (T : table) (g : str) (fv : str * val) : option (list (str * val)) :=
+  let key := g ++ [c_dot] ++ fst fv in
+  match find_action T key false with
+  | Some r => if is_load r
+              then match snd fv with
+                   | VStr s => match pv s with                       (* a string is loaded as the sub-group's config *)
+                               | VDict l => apply_children T key (fst fv) l
+                               | _ => None
+                               end
+                   | _ => apply_below T key fv
+                   end
+              else option_map (fun v' => [(fst fv, v')]) (check_leaf r true VNone (snd fv))
+  | None => apply_below T key fv
+  end.
+
 Definition apply_group (T : table) (g : str) (l : list (str * val)) : option (list (str * val)) :=
-  map_opt (fun fv =>
-             match find_action T (g ++ [c_dot] ++ fst fv) false with
-             | Some r => if is_load r then Some fv
-                         else option_map (fun v' => (fst fv, v')) (check_leaf r true VNone (snd fv))
-             | None => Some fv
-             end) (dict_to_items l).
+  option_map (@concat _) (map_opt (apply_item T g) (dict_to_items l)).
 
 (* _ActionConfigLoad._load_config *)
 Definition load_config (T : table) (g : str) (text : str) : option (list (str * val)) :=
@@ -231,7 +263,7 @@ Definition load_config (T : table) (g : str) (text : str) : option (list (str * 
 
 Definition expand (T : table) (k : str) (x : val) : option tv :=
   match x with
-  | VDict l => option_map TNs (apply_group T k l)
+  | VDict l => if empty_ok T k l then option_map TNs (apply_group T k l) else None
   | y => Some (TLeaf y)
   end.
 
@@ -272,6 +304,36 @@ Definition apply_config (T : table) (c : ns) (text : str) : res ns :=
   | _ => Reject
   end.
 
+(* the leaves below a sub-group key, in the flattened namespace of the group *)
+Definition below_sub (sub : str) (kv : str * val) : bool :=
+  starts_with (fst kv) (sub ++ [c_dot]) || str_eqb (fst kv) sub.
+
+(* _ActionConfigLoad.__call__: namespace[dest] = loaded value merged over what is there; dest is the group key
+   or, for a nested sub-group, "g.sub" (its leaves live in g's namespace under their dotted paths) *)
+Definition group_call (c : ns) (dest : str) (l : list (str * val)) : ns :=
+  match snd (split_key dest) with
+  | None =>
+      match lookup dest c with
+      | Some (TNs old) => upsert dest (TNs (fold_left (fun acc fv => upsert (fst fv) (snd fv) acc) l old)) c
+      | _ => upsert dest (TNs l) c
+      end
+  | Some sub =>
+      fold_left (fun c' fv => set_leaf c' (fst (split_key dest)) (sub ++ [c_dot] ++ fst fv) (snd fv)) l c
+  end.
+
+(* _load_env_vars: cfg[action.dest] = loaded value (replaces what is there) *)
+Definition env_group_set (c : ns) (dest : str) (l : list (str * val)) : ns :=
+  match snd (split_key dest) with
+  | None => upsert dest (TNs l) c
+  | Some sub =>
+      let g := fst (split_key dest) in
+      let c0 := match lookup g c with
+                | Some (TNs old) => upsert g (TNs (filter (fun kv => negb (below_sub sub kv)) old)) c
+                | _ => c
+                end in
+      fold_left (fun c' fv => set_leaf c' g (sub ++ [c_dot] ++ fst fv) (snd fv)) l c0
+  end.
+
 (* ---------------- defaults and environment ---------------- *)
 Definition get_defaults (T : table) : ns :=
   fold_left (fun c r => match r_default r with AVal v => set_key c (r_dest r) v | ASuppress => c end) (t_rows T) [].
@@ -283,7 +345,7 @@ Definition env_step (T : table) (env : list (str * str)) (rc : res ns) (r : row)
     | Some text =>
         if is_load r then
           match load_config T (r_dest r) text with
-          | Some l => Ok (upsert (r_dest r) (TNs l) c)
+          | Some l => Ok (env_group_set c (r_dest r) l)
           | None => Reject
           end
         else match check_leaf r false (get_key c (r_dest r)) (VStr text) with
@@ -313,12 +375,6 @@ Definition resolve_opt (T : table) (opt : str) : resolved :=
        | [] => Unknown
        | _ => Ambiguous
        end.
-
-Definition group_call (c : ns) (g : str) (l : list (str * val)) : ns :=
-  match lookup g c with
-  | Some (TNs old) => upsert g (TNs (fold_left (fun acc fv => upsert (fst fv) (snd fv) acc) l old)) c
-  | _ => upsert g (TNs l) c
-  end.
 
 Definition argv_step (T : table) (rc : res ns) (item : str * str) : res ns :=
   bind rc (fun c =>
@@ -352,7 +408,11 @@ Definition argv_step (T : table) (rc : res ns) (item : str * str) : res ns :=
 Definition check_values_leaf (T : table) (c : ns) (key : str) (v : val) : bool :=
   match find_action T key false with
   | Some r =>
-      if is_load r then match v with VStr s => is_some (load_config T key s) | _ => true end
+      if is_load r then match v with                (* _check_value_key, _ActionConfigLoad: a string is loaded, *)
+                        | VStr s => is_some (load_config T key s)   (* None passes, any other non-mapping is *)
+                        | VNone => true                              (* rejected (fix d768470)               *)
+                        | _ => false
+                        end
       else is_none v || is_some (check_leaf r false (get_key c key) v)
   | None => is_branch_key T key && is_none v     (* a branch key must hold a mapping (or None): _core.py:1137-1139 *)
   end.
@@ -466,6 +526,62 @@ Definition finding_class_fixed (gk : str) (fs : list field) (inp : input) : N :=
   else if env_names_group gk inp then 2
   else if config_group_text gk inp then 3
   else if config_group_nonmap gk inp then 4
+  else 0.
+
+(* ---- members (nested sub-groups, declaration-time default overrides) ---- *)
+(* the sub-group key n of the group is itself addressed: "--gk.n" or an abbreviation of it on the command line,
+   its environment variable, or a non-mapping for it in a config *)
+Definition dict_sub_is (p : val -> bool) (gk n : str) (d : list (str * val)) : bool :=
+  existsb (fun kv => str_eqb (fst kv) (gdest gk)
+                     && match snd kv with
+                        | VDict l => existsb (fun fv => str_eqb (fst fv) n && p (snd fv)) (dict_to_items l)
+                        | _ => false
+                        end) (norm_dict d).
+Definition text_sub_is (p : val -> bool) (gk n : str) (text : str) : bool :=
+  match pv text with VDict d => dict_sub_is p gk n d | _ => false end.
+Definition config_sub_is (p : val -> bool) (gk n : str) (inp : input) : bool :=
+  match lookup env_cfg (i_env inp) with Some t => text_sub_is p gk n t | None => false end
+  || match i_entry inp with
+     | EArgs items => existsb (fun it => text_sub_is p gk n (snd it)) items
+     | EObject d => dict_sub_is p gk n d
+     | EString text => text_sub_is p gk n text
+     end.
+
+(* member and parameter names are identifiers (no '.', no '-') and pairwise different *)
+Definition plain_name (s : str) : bool := negb (has_dot s) && negb (has_dash s).
+Fixpoint nodupb (l : list str) : bool :=
+  match l with [] => true | x :: l' => negb (mem_str x l') && nodupb l' end.
+Definition member_names (ms : list member) : list str :=
+  map (fun m => match m with MLeaf o => f_name (o_field o) | MSub n _ _ => n end) ms.
+Definition names_ok (ms : list member) : bool :=
+  forallb plain_name (member_names ms) && nodupb (member_names ms)
+  && forallb (fun m => match m with
+                       | MSub _ sub _ => forallb plain_name (map (fun o => f_name (o_field o)) sub)
+                                         && nodupb (map (fun o => f_name (o_field o)) sub)
+                                         && negb (is_nil sub)
+                       | MLeaf _ => true
+                       end) ms.
+
+Definition well_formed_m (gk : str) (ms : list member) : bool :=
+  negb (has_dot gk) && negb (starts_dash gk) && negb (is_nil (flat (mnorm ms))) && overrides_ok (mnorm ms)
+  && names_ok (mnorm ms).
+
+(* hyphenated key and the signature styles call set_defaults (default= given, or a member with a default instance):
+   the mapping's keys carry the RAW key, the actions the normalised dest *)
+Definition hyphen_defaults (gk : str) (ms : list member) : bool :=
+  has_dash gk && (ms_has_over ms || has_mdef ms).
+
+(* 0 = inside the guard of C07_four_styles_agree_m; 7 = a nested sub-group (tables proved, runs only tied);
+   8 = hyphen_defaults; the other classes as above, the addressed key being the group's or a sub-group's *)
+Definition finding_class_m (gk : str) (ms : list member) (inp : input) : N :=
+  let subs := map (fun n => gk ++ [c_dot] ++ n) (sub_names ms) in
+  if negb (well_formed_m gk ms) then 6
+  else if hyphen_defaults gk ms then 8
+  else if argv_names_group gk inp || existsb (fun k => argv_names_group k inp) subs then 1
+  else if env_names_group gk inp || existsb (fun k => env_names_group k inp) subs then 2
+  else if config_group_text gk inp || existsb (fun n => config_sub_is textish gk n inp) (sub_names ms) then 3
+  else if config_group_nonmap gk inp || existsb (fun n => config_sub_is nonmap gk n inp) (sub_names ms) then 4
+  else if has_nested ms then 7
   else 0.
 
 End Parse.
